@@ -12,7 +12,7 @@ import tempfile
 from concurrent.futures import ThreadPoolExecutor
 
 ROOT = os.path.dirname(os.path.dirname(os.path.abspath(__file__)))
-SEEDED = os.path.join(ROOT, "seeded")
+SEEDED = os.path.join(ROOT, os.environ.get("QV_CORPUS", "seeded"))
 PY = "/venv/bin/python" if os.path.exists("/venv/bin/python") else sys.executable
 
 
@@ -89,7 +89,8 @@ def main():
             if not r["applied"]:
                 continue
             idx[r["name"]] = {"property": r["property"], "detected_by": sorted(p for p, _ in r["fired"]),
-                              "first_report": {p: (l[0] if l else "") for p, l in r["fired"]}}
+                              "first_report": {p: (l[0] if l else "") for p, l in r["fired"]},
+                              "not_recognised_by": sorted({e.split(":")[0] for e in r["errors"] if e[:3] in built})}
         with open(idx_path, "w") as fh:
             json.dump(idx, fh, indent=1, sort_keys=True)
             fh.write("\n")
